@@ -14,8 +14,11 @@ def check(ctx):
         "edge, and postprocess passes each collection's own pair; R4 SpanQueue start/finish keep next_parent_id (new "
         "span's parent <- next_parent_id, next <- new id; restore <- finished span's stored parent; nothing on the "
         "capacity edge); R5 the per-item fan-out loop exits only by exhaustion; R6 every use of issue_collect_token carries all items over "
-        "(collect / flat_map; only SpanContext::from_span may read the first item) and a scope re-issues its token item by item.")
-    ctx.not_decided = ("uniqueness / non-zero of generated ids (random prefix + 32-bit counter: value level); that the "
+        "(collect / flat_map; only SpanContext::from_span may read the first item), a scope re-issues its token item by item and no "
+        "token is filtered or reordered before the submit choke point; R7 SpanId::next_id stores (prefix, counter + c) back with a "
+        "non-zero constant c on every call, composes the id as (prefix << 32) | counter, draws the prefix at random per thread "
+        "and falls back to a random id during thread-local teardown.")
+    ctx.not_decided = ("uniqueness / non-zero of generated ids as values (collisions of random prefixes, counter wrap-around after 2^32 ids: value level); that the "
                        "tree is right for every nesting (the rules show each link is built from the right source, not "
                        "that the source holds the right runtime value).")
     facts = ctx.facts("E")
@@ -23,6 +26,7 @@ def check(ctx):
     provrules.rule_span_collections(ctx, facts, "R2")
     provrules.rule_span_records(ctx, facts, "R3")
     provrules.rule_scope_parent(ctx, facts, "R4")
+    provrules.rule_id_generator(ctx, facts, "R7")
     provrules.rule_token_derivation_total(ctx, facts, "R6")
     provrules.rule_token_order_preserved(ctx, facts, "R6")
     c = collector.Collector(ctx, facts)
